@@ -192,7 +192,23 @@ def make_inst(desc, step):
         if g == "ControlledPhase":
             return pq.fermionic.ControlledPhase(phi=p["phi"])
         return progs.make_gate(pq, step, desc["cutoff"])
+    if step["k"] == "measure" and step["m"] == "GeneraldyneMeasurement" \
+            and step["p"].get("pure"):
+        # pure (rank-one) detection: rotated squeezed vacuum, det = 1
+        rng = progs.rng_of(step["p"]["seed"])
+        r, phi = rng.uniform(-0.8, 0.8), rng.uniform(0, np.pi)
+        rot = np.array([[np.cos(phi), -np.sin(phi)], [np.sin(phi), np.cos(phi)]])
+        return pq.GeneraldyneMeasurement(
+            detection_covariance=rot @ np.diag([np.exp(-2 * r), np.exp(2 * r)]) @ rot.T)
     return aprogs.make_step(pq, step, desc["cutoff"])
+
+
+def pure_detection(step):
+    """Homodyne / heterodyne / general-dyne with det(detection covariance) = 1 project on
+    pure states: the conditional state of a pure state is pure."""
+    return step["k"] == "measure" and (
+        step["m"] in ("HomodyneMeasurement", "HeterodyneMeasurement")
+        or (step["m"] == "GeneraldyneMeasurement" and bool(step["p"].get("pure"))))
 
 
 def add_prep(desc):
@@ -349,8 +365,9 @@ def inv_gaussian(state, hbar, cutoff, rng, pure_expected, info, heavy=True):
         raise Violation("C08:G:is_pure:true-for-mixed",
                         f"is_pure() is True, purity {purity!r} (own {own!r}) {info}")
     if pure_expected and (abs(purity - 1) > 1e-8 * scale ** 2 or not ip):
-        raise Violation("C08:G:purity:unitary-on-pure",
-                        f"only unitary gates acted on a pure input but get_purity() = "
+        raise Violation("C08:G:purity:pure-input-not-pure",
+                        f"only unitary gates (and projections on pure states) acted on a pure "
+                        f"input but get_purity() = "
                         f"{purity!r}, is_pure() = {ip} (hbar={hbar}) {info}")
     if heavy:
         # probabilities
@@ -579,7 +596,8 @@ def prop_sequence(desc, ctx):
         name = step_name(s) if s else "prep"
         info = f"[{sim} d={desc['d']} hbar={desc['hbar']} after step {upto} ({name})]"
         if s is not None:
-            if s["k"] != "gate" or s["g"] in CHANNELS:
+            if (s["k"] != "gate" and not (sim == "G" and pure_detection(s))) \
+                    or s.get("g") in CHANNELS:
                 pure_so_far = False
             if s["k"] == "gate" and s["g"] in ("Loss", "UniformLoss", "LossyInterferometer"):
                 lossy = True
@@ -736,7 +754,7 @@ def gaussian_sequence(draw):
             if m == "HomodyneMeasurement":
                 p = {"phi": draw(progs.angle())}
             if m == "GeneraldyneMeasurement":
-                p = {"seed": draw(st.integers(0, 2 ** 16))}
+                p = {"seed": draw(st.integers(0, 2 ** 16)), "pure": draw(st.booleans())}
             steps.append({"k": "measure", "m": m, "modes": modes, "p": p})
             active = [a for a in active if a not in modes]
     if draw(st.integers(0, 5)) == 0:
